@@ -157,7 +157,7 @@ theorem translated_AsciiSet_remove_eq (s b : Nat) (h : b < 128) :
 /-- **`AsciiSet::has` of the current source = `Url.setHas`** -/
 theorem translated_AsciiSet_has_eq (s b : Nat) (h : b < 128) :
     Translated.AsciiSet_has s b = Url.setHas s b := by
-  u128_norm [Translated.AsciiSet_has] h
+  u128_norm [Translated.AsciiSet_has] h <;> (cases s.testBit b <;> simp)
 
 /-- what C17 (`Props/C17Set.lean`, `setHas_setRemove`) says, stated of the SOURCE functions: `remove c` takes out
     exactly `c` -/
